@@ -6,6 +6,7 @@ import TonicModel.Lemmas.HealthPark
 import TonicModel.Basic.HealthLin
 import TonicModel.Lemmas.HealthLin
 import TonicModel.Lemmas.HealthLife
+import TonicModel.Lemmas.HealthLinRT
 /-
 C18 — Health service reports the latest status to Check and Watch.
 Property theorems only; helper lemmas live in `Lemmas/Health*.lean`.
@@ -158,13 +159,48 @@ theorem C18_watch_first_report_coalesced (ops : List Op) (w : Nat) (v : View)
     | true => exact absurd ((closed_iff_mem _ _).mp h) hopen
   exact ⟨_, view_latest_current hv hcl, C18_watch_first_poll_delivers ops w v hv hfirst⟩
 
-/-- A stream never delivers a status that was not set for its name: whatever it delivers was
-either the name's status when the stream was opened or was set for that name afterwards
-(before the name was cleared, see `Spec.Health.statuses`). -/
+/-- a status of the registration is the start, or was set at a moment before which (since the
+subscription) the name had not been cleared (`l` is newest first: `b` is what came before) -/
+private theorem mem_statuses_open {n : Name} {s0 x : St} {l : Hist} (hx : x ∈ statuses n s0 l) :
+    x = s0 ∨ ∃ a r b, l = a ++ (Op.set n x, r) :: b ∧ closed n b = false := by
+  induction l with
+  | nil => simp [statuses] at hx; exact Or.inl hx
+  | cons e l ih =>
+    have lift : (x = s0 ∨ ∃ a r b, l = a ++ (Op.set n x, r) :: b ∧ closed n b = false) →
+        (x = s0 ∨ ∃ a r b, e :: l = a ++ (Op.set n x, r) :: b ∧ closed n b = false) := by
+      rintro (h | ⟨a, r, b, hl, hb⟩)
+      · exact Or.inl h
+      · exact Or.inr ⟨e :: a, r, b, by rw [hl]; rfl, hb⟩
+    obtain ⟨op, r⟩ := e
+    cases hcl : closed n l with
+    | true => simp [statuses, hcl] at hx; exact lift (ih hx)
+    | false =>
+      cases op with
+      | set m st =>
+        by_cases hm : m = n
+        · subst hm
+          simp [statuses, hcl] at hx
+          rcases hx with rfl | hx
+          · exact Or.inr ⟨[], r, l, rfl, hcl⟩
+          · exact lift (ih hx)
+        · simp [statuses, hcl, hm] at hx; exact lift (ih hx)
+      | clear m => simp [statuses, hcl] at hx; exact lift (ih hx)
+      | check m => simp [statuses, hcl] at hx; exact lift (ih hx)
+      | watch m => simp [statuses, hcl] at hx; exact lift (ih hx)
+      | next m => simp [statuses, hcl] at hx; exact lift (ih hx)
+      | drop m => simp [statuses, hcl] at hx; exact lift (ih hx)
+
+/-- A stream never delivers a status that was not set for its name while its registration
+lasted: whatever it delivers was either the name's status when the stream was opened, or was set
+for that name afterwards at a moment before which the name had not been cleared since the
+subscription (the log is newest first: `l = a ++ (set n s, r') :: b` with no `clear n` in `b`, the
+events between the subscription and that `set`).  A status set only for a LATER registration of
+the name (after a clear) is excluded. -/
 theorem C18_watch_values_were_set (ops : List Op) (w : Nat) (s : St)
     (h : answer ops (.next w) = .value s) :
     ∃ l n r h0, logOf ops = l ++ (Op.watch n, r) :: h0 ∧ numWatches h0 = w ∧
-      (current h0 n = some s ∨ ∃ r', (Op.set n s, r') ∈ l) := by
+      (current h0 n = some s ∨
+        ∃ a r' b, l = a ++ (Op.set n s, r') :: b ∧ Op.clear n ∉ b.map (·.1)) := by
   rw [answer_spec] at h
   cases hv : view (logOf ops) w with
   | none => simp [expected, hv] at h
@@ -173,9 +209,38 @@ theorem C18_watch_values_were_set (ops : List Op) (w : Nat) (s : St)
     have hs : s = latest v.name v.start v.evs := expectedNext_value h
     obtain ⟨h0, r, hsplit, hcur, hw⟩ := view_sound hv
     refine ⟨v.evs, v.name, r, h0, hsplit, hw, ?_⟩
-    rcases mem_statuses (hs ▸ latest_mem_statuses v.name v.start v.evs) with h1 | h2
+    rcases mem_statuses_open (hs ▸ latest_mem_statuses v.name v.start v.evs) with h1 | ⟨a, r', b, hl, hb⟩
     · exact Or.inl (by rw [h1]; exact hcur)
-    · exact Or.inr h2
+    · refine Or.inr ⟨a, r', b, hl, ?_⟩
+      intro hmem
+      rw [(closed_iff_mem _ _).mpr hmem] at hb
+      cases hb
+
+/-- The restriction in `C18_watch_values_were_set` has content: after
+`set a NOT_SERVING; watch a; clear a; set a UNKNOWN` the status UNKNOWN was "set for that name after
+the subscription", but only for a later registration — the stream delivers NOT_SERVING, the clause
+rejects UNKNOWN, and the conclusion above does not hold for UNKNOWN (every `set a UNKNOWN` in the
+stream's events has the `clear a` before it). -/
+theorem C18_watch_values_were_set_excludes_later_registration :
+    let ops : List Op := [.set [97] .notServing, .watch [97], .clear [97], .set [97] .unknown]
+    answer ops (.next 0) = .value .notServing ∧
+    allowed (logOf ops) (.next 0) (.value .unknown) = false ∧
+    (∃ r', (Op.set [97] St.unknown, r') ∈ (logOf ops).take 2) ∧
+    ¬ ∃ a r' b, (logOf ops).take 2 = a ++ (Op.set [97] St.unknown, r') :: b ∧
+        Op.clear [97] ∉ b.map (·.1) := by
+  refine ⟨by decide, by decide, ⟨.done, by decide⟩, ?_⟩
+  rintro ⟨a, r', b, hl, hb⟩
+  have hlog : (logOf [Op.set [97] .notServing, .watch [97], .clear [97], .set [97] .unknown]).take 2
+      = [(Op.set [97] .unknown, .done), (Op.clear [97], .done)] := by decide
+  rw [hlog] at hl
+  match a, hl with
+  | [], hl =>
+    simp only [List.nil_append, List.cons.injEq] at hl
+    obtain ⟨_, rfl⟩ := hl
+    exact hb (by simp)
+  | [_], hl => simp at hl
+  | _ :: _ :: [], hl => simp at hl
+  | _ :: _ :: _ :: _, hl => simp at hl
 
 /-- Convergence: while the name stays registered, a poll either delivers the name's current
 status or — only if that is what the stream delivered last — reports nothing new. -/
@@ -291,7 +356,16 @@ tasks parked on it poll again.  `pops items` is the sequential history (`step` o
 oldest first) that `items` amounts to, `(pexec pinit items).parked` the streams held by parked
 tasks afterwards. -/
 
-/-- A history with awaiting watchers is a sequential history in which the parked layer only
+/-- Transcription lemma: `pops items` is the operation-projection of the model's own event list
+`pevents`, and every event `pstepFull` records is a pair (operation, `step`'s answer to it), so the
+statement compares the parked layer with its own bookkeeping; it holds for ANY table semantics
+`step`, any `chanOf` and any wake-up rule `notified` — also one that never wakes anybody — with the
+same proof.  It says nothing about wake-ups; the no-lost-wake-up content is in
+`C18_parked_has_nothing_to_deliver`, `C18_parked_may_stay_parked` and `C18_parked_watcher_is_woken`
+(which do depend on `step` and `notified`), and that real tasks behave like `pstep` is carried by
+the `park` cases of the correspondence run.
+
+A history with awaiting watchers is a sequential history in which the parked layer only
 decides *when* streams are polled: the table afterwards is the one `pops items` produces, and
 the answers given along the way (to operations, to `await`s, to the polls of woken tasks) are
 exactly the answers of `Health.run` on `pops items`.  Hence everything above — the refinement
@@ -366,7 +440,11 @@ The correspondence run also records histories of concurrent tasks and searches f
 linearization (`Basic/HealthLin`).  The search commits to a call whose answer is "read-only"
 (a Check, a poll that delivered nothing, an operation on an empty slot) as soon as it is
 enabled and accepted, instead of branching.  That is complete for the model because such a
-call leaves the model state untouched, so it can be moved to the front of any linearization: -/
+call leaves the model state untouched, so it can be moved to the front of any linearization
+(theorem below; stated for the MODEL acceptor only — for the clause acceptor `Spec.Health.accept`,
+whose state is the log and does grow on such calls, completeness of the commit rule is not proved;
+it concerns completeness only: a wrong commit could cause a false `not-linearizable`, never an
+unfounded `ok`, which is what `C18_linearization_search_sound` excludes for both acceptors): -/
 
 /-- A call answered in a read-only way does not change the model state. -/
 theorem C18_readonly_answers_keep_state (s : H) (op : Op)
@@ -397,13 +475,85 @@ theorem C18_readonly_answers_keep_state (s : H) (op : Op)
 
 /-- The search is sound: whenever it answers "yes" for a recorded history — against the model
 (`Health.accept`) or against the property's clauses (`Spec.Health.accept`) — there is a
-schedule of the recorded calls that keeps every task's own order, never places a call before
-one that had returned before it was invoked, and along which the machine accepts every
-recorded answer (`Lin.Run`).  So an `ok` verdict on a concurrent history is never unfounded. -/
+schedule of the recorded calls that keeps every task's own order, never places a call before the
+HEAD (the oldest pending call) of another task if that head had returned before the call was
+invoked (`Lin.minimal`), and along which the machine accepts every recorded answer (`Lin.Run`).
+So an `ok` verdict on a concurrent history is never unfounded.  The full real-time condition —
+with respect to EVERY pending call — needs the record's stamps to increase inside each task: see
+`C18_linearization_respects_real_time` and `C18_linearization_needs_increasing_stamps`. -/
 theorem C18_linearization_search_sound {σ : Type} (acc : σ → Op → Resp → Option σ)
     (nslots : σ → Nat) (s : σ) (ts : List Lin.Task)
     (h : Lin.linearizable acc nslots s ts = .yes) : Lin.Run acc nslots s ts :=
   Lin.linearizable_sound acc nslots s ts h
+
+/-- **Real-time order, for records whose stamps increase.**  If inside every task the return
+stamps do not decrease along the task's calls (`Lin.wellStamped`: what a task that makes its calls
+one after the other and stamps them with a global clock records), then a "yes" of the search comes
+with a schedule that keeps every task's own order, along which the machine accepts every recorded
+answer, and that NEVER places a call before a call of another task that had returned before it was
+invoked — for all pending calls, not only the heads (`Lin.RunRT`, `Lin.Enabled`).  The hypothesis is
+about the record: the search does not check it, and neither does the driver. -/
+theorem C18_linearization_respects_real_time {σ : Type} (acc : σ → Op → Resp → Option σ)
+    (nslots : σ → Nat) (s : σ) (ts : List Lin.Task) (hw : Lin.wellStamped ts = true)
+    (h : Lin.linearizable acc nslots s ts = .yes) : Lin.RunRT acc nslots s ts :=
+  Lin.run_realtime acc nslots (Lin.linearizable_sound acc nslots s ts h) hw
+
+/-- a record with inconsistent stamps: task A's first call (check `a`, [0,10]) carries a LATER return
+stamp than its second (set `a` SERVING, [1,2]); task B's check `a` = NOT_FOUND runs during [5,6],
+i.e. it was invoked after A's set had returned -/
+def stampsBad : List Lin.Task :=
+  [⟨[⟨.check [97], 5, 6, .notFound⟩], Lin.noSlot⟩,
+   ⟨[⟨.check [97], 0, 10, .notFound⟩, ⟨.set [97] .serving, 1, 2, .done⟩], Lin.noSlot⟩]
+
+/-- … and the hypothesis is needed.  On `stampsBad` (stamps that do not increase inside a task) the
+search says `yes` against model and clauses — B's check is taken first because only the HEAD of
+task A is looked at — although no schedule respecting real time for all pending calls exists
+(`¬ RunRT`); with consistent stamps for the same calls the search says `no`. -/
+theorem C18_linearization_needs_increasing_stamps :
+    Lin.wellStamped stampsBad = false ∧
+    Lin.linearizable Health.accept (fun s => s.watchers.length) init stampsBad = .yes ∧
+    Lin.linearizable Spec.Health.accept Spec.Health.numWatches [] stampsBad = .yes ∧
+    ¬ Lin.RunRT Health.accept (fun s => s.watchers.length) init stampsBad ∧
+    Lin.linearizable Health.accept (fun s => s.watchers.length) init
+      [⟨[⟨.check [97], 5, 6, .notFound⟩], Lin.noSlot⟩,
+       ⟨[⟨.check [97], 0, 1, .notFound⟩, ⟨.set [97] .serving, 1, 2, .done⟩], Lin.noSlot⟩] = .no := by
+  refine ⟨by decide, by decide, by decide, ?_, by decide⟩
+  intro h
+  cases h with
+  | done h0 => exact absurd h0 (by decide)
+  | step hp hen hacc hrest =>
+    simp [Lin.picks, stampsBad] at hp
+    rcases hp with ⟨rfl, rfl, rfl⟩ | ⟨rfl, rfl, rfl⟩
+    · -- B's check first: A's set (not the head) had returned before it was invoked
+      exact hen _ List.mem_cons_self ⟨.set [97] .serving, 1, 2, .done⟩ (by simp) (by decide)
+    · -- A's check first
+      have e : Health.accept init (.check [97]) .notFound = some init := rfl
+      simp only [Lin.localise] at hacc
+      rw [e] at hacc
+      cases hacc
+      cases hrest with
+      | done h0 => exact absurd h0 (by decide)
+      | step hp hen hacc hrest =>
+        simp [Lin.picks, Lin.afterCall] at hp
+        rcases hp with ⟨rfl, rfl, rfl⟩ | ⟨rfl, rfl, rfl⟩
+        · -- then A's set: B's check = NOT_FOUND is no longer accepted
+          simp only [Lin.localise] at hacc
+          have e2 : ∃ s2, Health.accept init (.set [97] .serving) .done = some s2 ∧
+              Health.accept s2 (.check [97]) .notFound = none := ⟨_, rfl, rfl⟩
+          obtain ⟨s2, h2, h3⟩ := e2
+          rw [h2] at hacc
+          cases hacc
+          cases hrest with
+          | done h0 => exact absurd h0 (by decide)
+          | step hp hen hacc hrest =>
+            simp [Lin.picks, Lin.afterCall] at hp
+            obtain ⟨rfl, rfl, rfl⟩ := hp
+            simp only [Lin.localise] at hacc
+            rw [h3] at hacc
+            cases hacc
+        · -- then B's check: A's set had returned before it was invoked
+          exact hen _ List.mem_cons_self ⟨.set [97] .serving, 1, 2, .done⟩
+            (by simp) (by decide)
 
 /-! ## non-vacuity: the hypotheses above are met by concrete histories -/
 
@@ -421,9 +571,29 @@ example :
       .set [97] .unknown, .next 0, .next 0, .check [97]]
       = [.done, .subscribed, .done, .done, .done, .value .serving, .ended, .status .unknown] := by
   decide
--- hypotheses of `C18_watch_first_report_at_subscription` with a non-trivial `mid`
+-- hypotheses of `C18_watch_first_report_at_subscription` (`hreg`) …
 example : current (logOf [.set [97] .serving]) [97] = some .serving ∧
     numWatches (logOf [.set [97] .serving]) = 0 := by decide
+-- … and the theorem instantiated with a non-trivial `mid` (another name set, the name cleared,
+-- a check, a second watch: none of them a drop / poll of stream 0 or a set of the name)
+example : answer ([.set [97] .serving] ++ .watch [97] :: [.set [98] .unknown, .clear [97], .check [97], .watch [97]])
+      (.next 0) = .value .serving :=
+  C18_watch_first_report_at_subscription [.set [97] .serving]
+    [.set [98] .unknown, .clear [97], .check [97], .watch [97]] [97] .serving (by decide)
+    (by intro op h; simp at h; rcases h with rfl | rfl | rfl | rfl <;> simp)
+-- `C18_watch_then_silent` with a busy `q` (another name set, another stream opened and polled)
+example : answer ([.watch [], .next 0, .set [] .notServing] ++ .next 0 :: [.set [97] .serving, .watch [], .next 1, .next 0])
+      (.next 0) = .pending :=
+  C18_watch_then_silent _ [.set [97] .serving, .watch [], .next 1, .next 0] 0
+    ⟨[], .serving, [(.set [] .notServing, .done), (.next 0, .value .serving)]⟩ (by decide) (by decide)
+    (by intro op h; simp at h; rcases h with rfl | rfl | rfl | rfl <;> simp)
+-- `C18_clear_ends_streams`: both disjuncts are reachable
+example : answer [.watch [], .next 0, .clear []] (.next 0) = .ended := by decide
+example : answer [.watch [], .next 0, .set [] .unknown, .clear []] (.next 0) = .value .unknown := by decide
+-- `C18_linearization_respects_real_time`: `wellStamped` holds of the recorded history below
+example : Lin.wellStamped
+    [⟨[⟨.set [97] .serving, 2, 5, .done⟩], Lin.noSlot⟩,
+     ⟨[⟨.watch [97], 0, 1, .subscribed⟩, ⟨.next 0, 1, 4, .value .serving⟩], Lin.noSlot⟩] = true := by decide
 -- hypotheses of `C18_watch_converges` / `C18_watch_then_silent` (open stream with a delivery)
 example : view (logOf [.watch [], .next 0, .set [] .notServing]) 0
     = some ⟨[], .serving, [(.set [] .notServing, .done), (.next 0, .value .serving)]⟩ := by decide
@@ -461,7 +631,17 @@ that are cloned, overwritten and dropped (all of them, too) between the health o
 variables that hold a value; `effective p` reads, off the items addressed to pair `p` alone, the
 health operations that happened on it. -/
 
-/-- Handles and other pairs are invisible: in every `life` history, from the start of the
+/-- Transcription lemma: `effective p` (Model/HealthLife) reads the operations that happened on
+pair `p` with the SAME handle rule `sideStep` applies (same liveness test per variable, same
+refusal to drop the last handle), and `lstep` touches only the addressed pair, so the equation
+holds by construction of the process model — for ANY table semantics in the place of
+`Health.step` and any initial table, with the same proof; there is no independent oracle for the
+handle rule.  That handles and other pairs give tonic-health no behaviour (a dropped reporter does
+not clear the statuses, clones share one table, pairs share nothing) was written into `sideStep`
+from the source and is established by the `life` cases of the correspondence run, not by this
+theorem.
+
+Handles and other pairs are invisible: in every `life` history, from the start of the
 process, the answers pair `p` gets are exactly the answers of one fresh table to the health
 operations that happened on `p` — whichever clone each went through, however many clones were
 made or dropped in between (also when every reporter handle is gone: the statuses stay, Check
@@ -471,12 +651,19 @@ theorem C18_pair_is_own_history (p : Nat) (items : List LItem) :
     sideAnswers p (lrun linit items) = Health.run init (effective p liveInit liveInit items) :=
   (side_is_own_history p items linit).1
 
-/-- … likewise the table the pair ends with. -/
+/-- Transcription lemma: second half of `side_is_own_history`, definitional for the same reason as
+`C18_pair_is_own_history` (holds for any table semantics); assurance from the `life` cases.
+
+… likewise the table the pair ends with. -/
 theorem C18_pair_table_is_own_history (p : Nat) (items : List LItem) :
     ((lexec linit items) p).h = exec init (effective p liveInit liveInit items) :=
   (side_is_own_history p items linit).2
 
-/-- Hence every pair's answers pass the property's clauses in every `life` history, and are the
+/-- Transcription lemma: `C18_answers_allowed` and `C18_refines_oracle` instantiated at the list
+`effective p …` after rewriting with `C18_pair_is_own_history` — no content beyond those three;
+the handle / pair claim itself rests on the `life` cases of the correspondence run.
+
+Hence every pair's answers pass the property's clauses in every `life` history, and are the
 log-scanning oracle's. -/
 theorem C18_pair_answers_allowed (p : Nat) (items : List LItem) :
     allowedTrace [] ((effective p liveInit liveInit items).zip (sideAnswers p (lrun linit items))) = true ∧
